@@ -357,14 +357,16 @@ theorem plan_size (shape : List Nat) (key : List Ix) (s idx : List Nat)
     · simp at h
     · split at h
       · simp at h
-      · rename_i groups hg
-        simp only [Except.ok.injEq, Prod.mk.injEq] at h
-        obtain ⟨rfl, rfl⟩ := h
-        rw [outerSum_length, prod_flatten, List.map_map, List.map_map]
-        congr 1
-        apply List.map_congr_left
-        intro g hgm
-        exact assemble_ok _ _ hg g hgm
+      · split at h
+        · simp at h
+        · rename_i groups hg
+          simp only [Except.ok.injEq, Prod.mk.injEq] at h
+          obtain ⟨rfl, rfl⟩ := h
+          rw [outerSum_length, prod_flatten, List.map_map, List.map_map]
+          congr 1
+          apply List.map_congr_left
+          intro g hgm
+          exact assemble_ok _ _ hg g hgm
 
 /-- indexing a well-formed array gives a well-formed array. -/
 theorem getitem_WF (d : α) (a : NDArr α) (key : List Ix) (r : NDArr α)
@@ -402,6 +404,14 @@ theorem walk_full (s : List Nat) :
     simp only [List.length_cons, List.replicate_succ, fullSlice, walk, fullOffs, List.map_cons]
     rw [sliceIdx_full]
     simp only [List.cons.injEq, true_and]
+    exact ih
+
+theorem boolsOk_full (s : List Nat) : boolsOk s (List.replicate s.length fullSlice) = true := by
+  induction s with
+  | nil => simp [boolsOk]
+  | cons n ns ih =>
+    simp only [List.length_cons, List.replicate_succ, fullSlice, boolsOk, Ix.consumes,
+      List.drop_succ_cons, List.drop_zero]
     exact ih
 
 theorem mapM_id_ok (l : List Sel) : (l.map fun s => (Except.ok s : Except PyErr Sel)).mapM id = .ok l := by
@@ -443,16 +453,17 @@ theorem plan_int (n : Nat) (rest : List Nat) (j : Int) (h1 : -(n : Int) ≤ j) (
   have hexp : expandKey (n :: rest).length [Ix.int j]
       = .ok (Ix.int j :: List.replicate rest.length fullSlice) := by
     simp [expandKey, Ix.consumes, Ix.isEllipsis]
-  have hany : (Ix.int j :: List.replicate rest.length fullSlice).any Ix.isArray = false := by
-    simp [Ix.isArray, fullSlice]
+  have hany : boolsOk (n :: rest) (Ix.int j :: List.replicate rest.length fullSlice) = true := by
+    simp only [boolsOk, Ix.consumes, List.drop_succ_cons, List.drop_zero]
+    exact boolsOk_full rest
   have hwalk : walk (n :: rest) (Ix.int j :: List.replicate rest.length fullSlice)
       = .ok (.adv ⟨[], [j]⟩ n rest.prod) :: (fullOffs rest).map fun o => .ok (.basic o) := by
     simp only [walk, walk_full]
     simp [h1, h2]
-  have hcol : collect false (.ok (.adv ⟨[], [j]⟩ n rest.prod) :: (fullOffs rest).map fun o => .ok (.basic o))
+  have hcol : (.ok (.adv ⟨[], [j]⟩ n rest.prod) :: (fullOffs rest).map fun o => (.ok (.basic o) : Except PyErr Sel)).mapM id
       = .ok (.adv ⟨[], [j]⟩ n rest.prod :: (fullOffs rest).map Sel.basic) := by
     have := mapM_id_ok (.adv ⟨[], [j]⟩ n rest.prod :: (fullOffs rest).map Sel.basic)
-    simpa [collect, List.map_map, Function.comp_def] using this
+    simpa [List.map_map, Function.comp_def] using this
   have hadv : advCol [] ((⟨[], [j]⟩ : NDArr Int), n, rest.prod)
       = .ok [(if j < 0 then j + n else j).toNat * rest.prod] := by
     have hw : (NDArr.mk ([] : List Nat) [j]).WF := by simp [NDArr.WF]
@@ -469,7 +480,7 @@ theorem plan_int (n : Nat) (rest : List Nat) (j : Int) (h1 : -(n : Int) ≤ j) (
       dropWhile_isAdv_basic, pure, Except.pure, bind, Except.bind, filterMap_basicOf_basic']
   unfold plan
   rw [hexp]; simp only
-  rw [hany, hwalk, hcol]; simp only
+  rw [hany, hwalk, hcol]; simp only [Bool.not_true, Bool.false_eq_true, if_false]
   rw [hasm]; simp only
   simp [List.map_map, Function.comp_def, fullOffs_shape, outerSum, outerSum_full]
 
@@ -514,19 +525,18 @@ consists of implied full slices) returns the array unchanged. -/
 theorem np_getitem_nil (d : α) (a : NDArr α) (hw : a.WF) : NP.getitem d a [] = .ok a := by
   have hexp : expandKey a.shape.length [] = .ok (List.replicate a.shape.length fullSlice) := by
     simp [expandKey]
-  have hany : (List.replicate a.shape.length fullSlice).any Ix.isArray = false := by
-    simp [Ix.isArray, fullSlice]
-  have hcol : collect false ((fullOffs a.shape).map fun o => .ok (.basic o))
+  have hany : boolsOk a.shape (List.replicate a.shape.length fullSlice) = true := boolsOk_full _
+  have hcol : ((fullOffs a.shape).map fun o => (.ok (.basic o) : Except PyErr Sel)).mapM id
       = .ok ((fullOffs a.shape).map Sel.basic) := by
     have := mapM_id_ok ((fullOffs a.shape).map Sel.basic)
-    simpa [collect, List.map_map, Function.comp_def] using this
+    simpa [List.map_map, Function.comp_def] using this
   have hasm : assemble ((fullOffs a.shape).map Sel.basic)
       = .ok ((fullOffs a.shape).map fun o => ([o.length], o)) := by
     unfold assemble
     simp only [filterMap_advOf_basic, List.isEmpty_nil, if_true, filterMap_basicOf_basic]
   unfold NP.getitem plan
   rw [hexp]; simp only
-  rw [hany, walk_full, hcol]; simp only
+  rw [hany, walk_full, hcol]; simp only [Bool.not_true, Bool.false_eq_true, if_false]
   rw [hasm]; simp only
   simp only [List.map_map, Function.comp_def, fullOffs_shape, List.map_id', outerSum_full]
   rw [← hw, gather_range]
@@ -563,5 +573,102 @@ theorem broadcastTo_self' [Zero α] (a : NDArr α) (S : List Nat) (hs : a.shape 
 
 theorem map_WF (f : α → α) (a : NDArr α) (h : a.WF) : (a.map f).WF := by
   simpa [NDArr.WF, NDArr.map] using h
+
+/-! ### broadcast values, by multi-index -/
+
+/-- flat (row-major) position of a multi-index in an array of the given shape. -/
+def flatIdx : List Nat → List Nat → Nat
+  | _ :: ns, i :: is => i * ns.prod + flatIdx ns is
+  | _, _ => 0
+
+/-- `mi` is a valid multi-index for `shape`. -/
+def ValidIdx (mi shape : List Nat) : Prop := List.Forall₂ (· < ·) mi shape
+
+/-- the source multi-index a broadcast reads: the same index where the (padded) source dimension
+equals the target dimension, `0` where it is stretched. -/
+def bproj : List Nat → List Nat → List Nat → List Nat
+  | t :: ts, p :: ps, i :: is => (if p = t then i else 0) :: bproj ts ps is
+  | _, _, _ => []
+
+/-- the sum of the chosen offset of every group. -/
+def pick : List (List Nat) → List Nat → Nat
+  | l :: ls, i :: is => l.getD i 0 + pick ls is
+  | _, _ => 0
+
+theorem flatIdx_lt {mi shape : List Nat} (h : ValidIdx mi shape) : flatIdx shape mi < shape.prod := by
+  induction h with
+  | nil => simp [flatIdx]
+  | @cons i n is ns hi _ ih =>
+    simp only [flatIdx, List.prod_cons]
+    calc i * ns.prod + flatIdx ns is < i * ns.prod + ns.prod := by omega
+      _ = (i + 1) * ns.prod := by ring
+      _ ≤ n * ns.prod := Nat.mul_le_mul_right _ hi
+
+theorem flatMap_uniform_getElem? (l : List Nat) (g : Nat → List Nat) (M : Nat)
+    (hg : ∀ a, (g a).length = M) (i j : Nat) (hi : i < l.length) (hj : j < M) :
+    (l.flatMap g)[i * M + j]? = (g l[i])[j]? := by
+  induction l generalizing i with
+  | nil => simp at hi
+  | cons a l ih =>
+    rw [List.flatMap_cons]
+    cases i with
+    | zero =>
+      simp only [Nat.zero_mul, Nat.zero_add, List.getElem_cons_zero]
+      rw [List.getElem?_append_left (by rw [hg]; exact hj)]
+    | succ i =>
+      have : (i + 1) * M + j = (g a).length + (i * M + j) := by rw [hg]; ring
+      rw [this, List.getElem?_append_right (by omega)]
+      simp only [Nat.add_sub_cancel_left, List.getElem_cons_succ]
+      exact ih i (by simpa using hi)
+
+/-- the element of the row-major enumeration at a multi-index is the sum of the chosen offsets. -/
+theorem outerSum_get (ls : List (List Nat)) (mi : List Nat)
+    (hv : List.Forall₂ (fun i l => i < l.length) mi ls) :
+    (outerSum ls)[flatIdx (ls.map List.length) mi]? = some (pick ls mi) := by
+  induction hv with
+  | nil => simp [outerSum, flatIdx, pick]
+  | @cons i l is ls hi hrest ih =>
+    have hvalid : ValidIdx is (ls.map List.length) := by
+      unfold ValidIdx
+      rw [List.forall₂_map_right_iff]
+      exact hrest
+    have hj := flatIdx_lt hvalid
+    rw [← outerSum_length] at hj
+    simp only [outerSum, List.map_cons, flatIdx, pick]
+    rw [← outerSum_length]
+    rw [flatMap_uniform_getElem? l _ (outerSum ls).length (by simp) i _ hi hj]
+    rw [List.getElem?_map, ih]
+    simp [List.getD_eq_getElem?_getD, hi]
+
+theorem pick_bOffs {t p mi : List Nat} (hv : ValidIdx mi t) (hl : t.length = p.length) :
+    pick (bOffs t p) mi = flatIdx p (bproj t p mi) := by
+  induction hv generalizing p with
+  | nil => cases p <;> simp [bOffs, pick, flatIdx, bproj]
+  | @cons i n is ns hi _ ih =>
+    cases p with
+    | nil => simp at hl
+    | cons q qs =>
+      simp only [List.length_cons, Nat.add_right_cancel_iff] at hl
+      simp only [bOffs, pick, bproj, flatIdx, ih hl]
+      split <;> simp [List.getD_eq_getElem?_getD, hi]
+
+/-- **the broadcast values**: the element of `np.broadcast_to(a, t)` at the multi-index `mi` is the
+element of `a` at the same multi-index with the stretched positions set to 0 (in `a`'s shape
+left-padded with 1s to the rank of `t`). -/
+theorem broadcastTo_get (d : α) (a : NDArr α) (t mi : List Nat) (hv : ValidIdx mi t)
+    (hr : a.shape.length ≤ t.length) :
+    (broadcastTo d a t).data[flatIdx t mi]? =
+      some (a.data.getD (flatIdx (pad t.length a.shape) (bproj t (pad t.length a.shape) mi)) d) := by
+  have hl := (pad_length _ _ hr).symm
+  have hlen := bOffs_lengths hl
+  have hv' : List.Forall₂ (fun i l => i < l.length) mi (bOffs t (pad t.length a.shape)) := by
+    have : ValidIdx mi ((bOffs t (pad t.length a.shape)).map List.length) := by rw [hlen]; exact hv
+    unfold ValidIdx at this
+    rwa [List.forall₂_map_right_iff] at this
+  have := outerSum_get _ mi hv'
+  rw [hlen] at this
+  unfold broadcastTo gather
+  simp only [List.getElem?_map, this, Option.map_some]
+  rw [pick_bOffs hv hl]
 
 end RegionsVerif.Lemmas.NDArr
